@@ -125,6 +125,10 @@ class Ctx:
         self.counter = 0
         self.assumes = []         # textual log of assume() origins (vacuity scan)
 
+    def set_timeout(self, ms):
+        """z3 budget per query for this path (cvc5 then takes the unknowns); used by sequence-heavy harnesses"""
+        self.solver.set("timeout", ms)
+
     # ---- names
     def fresh(self, stem):
         self.counter += 1
@@ -195,8 +199,20 @@ class Ctx:
         r = self.solver.check()
         model = self.solver.model() if r == z3.sat else None
         reason = self.solver.reason_unknown() if r == z3.unknown else None
+        backend2 = None
+        if r == z3.unknown:
+            # second back end takes z3's unknowns (sequence theory): cvc5 on the exported query
+            ans = cvc5_check(self.solver.to_smt2())
+            if ans == "unsat":
+                r, backend2 = z3.unsat, "cvc5"
+            elif ans == "sat":
+                reason = "z3: unknown (%s); cvc5: sat (no model extracted)" % reason
+            else:
+                reason = "z3: unknown (%s); cvc5: %s" % (reason, ans)
         self.solver.pop()
         ob.time += time.time() - t0
+        if backend2:
+            ob.detail = "discharged by cvc5 (z3 returned unknown)"
         if smt is not None:
             ob.smt2.append((str(r), smt))
         if r == z3.unsat:
@@ -251,6 +267,31 @@ class Ctx:
         for k, v in self.inputs.items():
             out[k] = model_value(model, v)
         return out
+
+
+CVC5 = "/usr/bin/cvc5"
+CVC5_TIMEOUT_S = 60
+
+
+def cvc5_check(smt2):
+    import os
+    import subprocess
+    import tempfile
+    if not os.path.exists(CVC5):
+        return "unavailable"
+    if "(set-logic" not in smt2:
+        smt2 = "(set-logic ALL)\n" + smt2
+    fd, path = tempfile.mkstemp(suffix=".smt2")
+    os.write(fd, smt2.encode())
+    os.close(fd)
+    try:
+        p = subprocess.run([CVC5, "--strings-exp", "--tlimit=%d" % (CVC5_TIMEOUT_S * 1000), path], capture_output=True, text=True, timeout=CVC5_TIMEOUT_S + 10)
+        ans = (p.stdout.strip().splitlines() or ["error"])[0]
+        return ans if ans in ("sat", "unsat", "unknown") else "error(%s)" % (p.stdout + p.stderr).strip()[:80]
+    except subprocess.TimeoutExpired:
+        return "timeout"
+    finally:
+        os.unlink(path)
 
 
 def has_quantifier(e):
@@ -564,6 +605,16 @@ class SymInt:
         return "SymInt(%s)" % s.z
 
 
+class SymName(SymInt):
+    """An opaque non-empty str (a name), identified by an integer id.  Truthiness is True (WF: names are non-empty)."""
+
+    def __bool__(s):
+        return True
+
+    def __hash__(s):
+        raise Unsupported("hash of an opaque name")
+
+
 F64 = z3.Float64()
 
 
@@ -672,7 +723,19 @@ class SymSeq:
     def __add__(self, o):
         if isinstance(o, SymSeq):
             return SymSeq(z3.Concat(self.s, o.s))
+        if isinstance(o, tuple):
+            if not o:
+                return self
+            if all(isinstance(x, (int, SymInt)) for x in o):
+                return SymSeq(z3.Concat(self.s, *[z3.Unit(zint(x)) for x in o]))
         raise Unsupported("SymSeq + %r" % (o,))
+
+    def __radd__(self, o):
+        if isinstance(o, tuple) and not o:
+            return self
+        if isinstance(o, tuple) and all(isinstance(x, (int, SymInt)) for x in o):
+            return SymSeq(z3.Concat(*([z3.Unit(zint(x)) for x in o] + [self.s])))
+        raise Unsupported("%r + SymSeq" % (o,))
 
     def __hash__(self):
         raise Unsupported("hash(SymSeq)")
